@@ -30,6 +30,49 @@ claim('C20',
       'transcribed from XML 1.0; the abstract interpreter vf/interp.py.',
       'DESIGN.md section 3, C20')
 
+claim('C18',
+      'abstract interpretation over all order types (weak orderings) of the compared terms',
+      'Exhaustive over a finite abstraction: checkLimits, checkLimitsTol, constrainLimits and '
+      'point_in_bounds are interpreted once per weak ordering of {value, lower, upper, lower-tol, '
+      'upper+tol} compatible with lower<=upper, tol>=0 (8 / 24 / 320 order types); in each the '
+      'returned value must be the value inside the closed range or the nearer bound and the flag '
+      'must be exactly "outside" / "outside by more than tol"; point_in_bounds must equal the '
+      'tolerant checker per coordinate (against the spec and against the extracted sibling '
+      'table). The functions touch inputs only through comparisons/min/max (verified: every order '
+      'type must be fully decided), so this covers every totally ordered numeric input.',
+      'Trusted: Python ast, min/max semantics, vf/interp.py + vf/order.py. Excluded by the '
+      'statement: NaN / unordered inputs.',
+      'DESIGN.md section 3, C18')
+
+claim('C12',
+      'decision-table extraction per unit literal in exact rational normal forms + table comparison',
+      'Decides at table level, for every value: the four converters, interpreted per unit literal '
+      'with the parser summarised as (v, unit), return exactly f_u*v, f_u*v/96, v/f_u (SVG/CSS '
+      'factors at 96 px/in, decimal literals converted exactly), percentages of the supplied '
+      'reference, None for unknown units / unparsable values / "%" in inches; the round trip is the '
+      'identity as a normal form for each unit; every unit the parser can produce is handled by '
+      'every converter (both Q/q). The parser, interpreted on an opaque string, yields one row per '
+      'suffix with tested width = stripped width = len(suffix) and the unit equal to the literal, '
+      'strips whitespace first, and guards float() with a ValueError handler returning '
+      '(None, None). Not decided: which numerals float() accepts; float rounding of the round trip.',
+      'Trusted: Python ast, float()/str slicing semantics, the SVG unit table transcribed in '
+      'vf/props/c12.py, vf/interp.py.',
+      'DESIGN.md section 3, C12')
+
+claim('C14',
+      'order-type enumeration of filter/overlap predicates + structural rules on the constructor',
+      'Decides the statement for all box collections and queries at the structural level: (D1) '
+      'every order type of a box relative to the split variables satisfies at least one quadrant '
+      'filter and is stored unchanged; (D2) extents fold MIN/MAX of the right coordinate from '
+      '+/-inf; (D3) over all order types of two closed intervals per axis the leaf test equals '
+      '"share a point" and the subtree test is implied by it; (D4) both stores are iterated, '
+      'recursive results united, query unchanged, leaves keep all boxes; (D5) recursion only when '
+      'every quadrant shrank, over filter lists only (strictly decreasing measure); (D6) no '
+      'in-place mutation of class-level lists. D1-D5 together imply result = brute force.',
+      'Trusted: Python ast, set semantics, vf/interp.py + vf/order.py. The composition argument '
+      '(D1-D5 imply the statement) is a pen-and-paper induction on the tree, stated in DESIGN.md.',
+      'DESIGN.md section 3, C14')
+
 
 def build():
     checks = []
